@@ -473,3 +473,67 @@ def _all_objs(p):
     for r in (p.roots or {}).values():
         walk(r)
     return out
+
+
+# ----------------------------------------------------------------------------------------------------------------- C05-1c
+@obligation('C05', 'C05-1c set_prepared_proposal: only from Unset; the fingerprint stores the request fields, the RESPONSE txs and the local last commit reduced to (round, validator, block-id flag) per vote')
+def c05_1c(run):
+    ex = engine()
+    f = ex.find(r'execution_state.*::set_prepared_proposal$')
+    run.bound(states='all 6 ExecutionState variants', request='all fields symbolic; local_last_commit None or Some with 0..2 votes')
+    n_ok = 0
+    for state in STATES:
+        for nv in (None, 0, 1, 2):
+            m, cvals, _ = machine(ex, state)
+            rv = {}
+            for name, ty in FIELDS:
+                if name in ('txs', 'proposed_last_commit'):
+                    continue
+                b = ex.scalar_bits(ty)
+                rv[name] = z3.BitVec(f'req_{name}', b) if b else opaque(ty, f'req_{name}')
+            if nv is None:
+                llc = none(); votes = []
+            else:
+                votes = []
+                for j in range(nv):
+                    val = opaque('tendermint::abci::types::Validator', f'vote{j}_validator'); sig = opaque('tendermint::abci::types::BlockSignatureInfo', f'vote{j}_sig_info')
+                    votes.append((B.struct(ex, 'tendermint::abci::types::ExtendedVoteInfo', validator=val, sig_info=sig), val, sig))
+                llc = some(B.struct(ex, 'tendermint::abci::types::ExtendedCommitInfo', round=z3.BitVec('llc_round', 32), votes=M.new_vec('Vec<ExtendedVoteInfo>', [v[0] for v in votes])))
+            req = B.struct(ex, 'tendermint::abci::request::PrepareProposal', local_last_commit=llc, **rv)
+            resp_txs = opaque('Vec<Bytes>', 'response_txs')
+            resp = B.struct(ex, 'tendermint::abci::response::PrepareProposal', txs=resp_txs)
+            for i, p in enumerate(run.explore(ex, ex.start(f, [B.cell(m), req, resp]), allow_havoc=DEFAULT_CTORS + (r'^Arguments::|fmt::',))):
+                lab = f'[{state}, last commit {nv}, path {i}]'
+                if p.kind != 'return':
+                    run.prove(f'no panic {lab}', p.pc, z3.BoolVal(False), detail=p.info); continue
+                post = post_state(ex, p); okk = p.result.discr == 'Ok'
+                run.sample({'pre': state, 'votes': nv, 'result': p.result.discr, 'post': str(post.discr)})
+                run.prove(f'Ok only from Unset {lab}', p.pc, z3.BoolVal(okk == (state == 'Unset')))
+                if not okk:
+                    run.prove(f'unchanged on Err {lab}', p.pc, z3.BoolVal(post.discr == state)); continue
+                n_ok += 1
+                stored = ex.deref_val(p, post.fields[('Prepared', 0)]) if post.discr == 'Prepared' else None
+                claim = [z3.BoolVal(post.discr == 'Prepared' and stored is not None)]
+                if stored is not None:
+                    for name, ty in FIELDS:
+                        if name in ('txs', 'proposed_last_commit'):
+                            continue
+                        claim.append(feq(B.fld(ex, p, stored, name, ty), rv[name]))
+                    claim.append(M.ident(ex.deref_val(p, B.fld(ex, p, stored, 'txs', 'Vec<Bytes>'))) == M.ident(resp_txs))
+                    plc = ex.deref_val(p, B.fld(ex, p, stored, 'proposed_last_commit', 'Option<CommitInfo>'))
+                    if nv is None:
+                        claim.append(z3.BoolVal(plc.discr == 'None'))
+                    else:
+                        claim.append(z3.BoolVal(plc.discr == 'Some'))
+                        if plc.discr == 'Some':
+                            ci = ex.deref_val(p, plc.fields[('Some', 0)])
+                            claim.append(B.fld(ex, p, ci, 'round', 'Round') == z3.BitVec('llc_round', 32))
+                            vs = ex.deref_val(p, B.fld(ex, p, ci, 'votes', 'Vec<VoteInfo>')).attrs['items']
+                            claim.append(z3.BoolVal(len(vs) == nv))
+                            for (ev, val, sig), v in zip(votes, vs):
+                                v = ex.deref_val(p, v)
+                                claim += [M.ident(ex.deref_val(p, B.fld(ex, p, v, 'validator', 'Validator'))) == M.ident(val), M.ident(ex.deref_val(p, B.fld(ex, p, v, 'sig_info', 'BlockSignatureInfo'))) == M.ident(sig)]
+                run.prove(f'the fingerprint is built from exactly the request fields, the response txs and the reduced last commit {lab}', p.pc, z3.And(*claim))
+    if not n_ok:
+        raise Inconclusive('vacuity')
+    run.require_reached(*run.cur.reach)
